@@ -13,6 +13,12 @@ Line protocol of engine `timers` (first token selects the component):
   `<value closed by c or ->/<every Timestamp value so far, comma separated, or ->`,
   a value is `<ns>:<micros>:<seconds f64 bits>:<millis f64 bits>`.
 * `resolve <e> <t> <r>` (0/1 each) → `explicit|thread|runtime|system`.
+* `env <op> …`  ops `i<g>:<s>` install thread-local override (guard g, source s) | `d<g>` drop guard |
+  `b<s>` begin `with_time_source` | `e` end it | `r<s>` install runtime override | `q` drop its guard |
+  `w<s>` / `a<s>` move source s's wall / monotonic clock (no effect on resolution) |
+  `c<kind>` default constructor, `c<kind>:<s>` explicit source (kinds: two letters; `od` =
+  TimestampOnClose, observed only at the end).
+  reply: per op `-` | `panic` | `s<j>` | `sys`; then `end:<binding of every object in creation order>`.
 -/
 namespace Driver.Timers
 open _root_.Timers
@@ -143,12 +149,62 @@ def handleResolve (toks : List String) : String :=
     | .system => "system"
   | _ => "bad-op"
 
+inductive EnvTok where
+  | op (o : EOp) (deferred : Bool)
+  | clock
+
+def parseEnvOp (t : String) : Option EnvTok :=
+  if t == "e" then some (.op .scopeEnd false)
+  else if t == "q" then some (.op .dropRt false)
+  else if t.startsWith "w" || t.startsWith "a" then (t.drop 1).toNat?.map fun _ => .clock
+  else if t.startsWith "i" then
+    match (t.drop 1).toString.splitOn ":" with
+    | [g, s] => match g.toNat?, s.toNat? with
+      | some g, some s => some (.op (.install g s) false)
+      | _, _ => none
+    | _ => none
+  else if t.startsWith "d" then (t.drop 1).toNat?.map fun g => .op (.dropGuard g) false
+  else if t.startsWith "b" then (t.drop 1).toNat?.map fun s => .op (.scopeBegin s) false
+  else if t.startsWith "r" then (t.drop 1).toNat?.map fun s => .op (.installRt s) false
+  else if t.startsWith "c" then
+    match (t.drop 1).toString.splitOn ":" with
+    | [k] => if k.length == 2 then some (.op (.construct none) (k == "od")) else none
+    | [k, s] => if k.length == 2 && k != "od" then s.toNat?.map fun s => .op (.construct (some s)) false else none
+    | _ => none
+  else none
+
+def srcStr : Src → String
+  | .fake j => s!"s{j}"
+  | .system => "sys"
+
+def envLoop : Env → List EnvTok → List String → List String → Option (List String × List String)
+  | _, [], acc, objs => some (acc, objs)
+  | e, .clock :: toks, acc, objs => envLoop e toks ("-" :: acc) objs
+  | e, .op o deferred :: toks, acc, objs =>
+    match e.step o with
+    | none => none
+    | some e' =>
+      match e.out o with
+      | .nothing => envLoop e' toks ("-" :: acc) objs
+      | .panic => envLoop e' toks ("panic" :: acc) objs
+      | .bound b => envLoop e' toks ((if deferred then "-" else srcStr b) :: acc) (srcStr b :: objs)
+
+def handleEnv (toks : List String) : String :=
+  match toks.mapM parseEnvOp with
+  | none => "bad-op"
+  | some ops =>
+    match envLoop Env.init ops [] [] with
+    | none => "bad-op"
+    | some (acc, objs) =>
+      " ".intercalate (acc.reverse ++ ["end:" ++ (if objs.isEmpty then "-" else ",".intercalate objs.reverse)])
+
 def handle (line : String) : String :=
   match (line.trimAscii.toString.splitOn " ").filter (· ≠ "") with
   | "sw" :: toks => handleSw toks
   | "timer" :: toks => handleTimer toks
   | "ts" :: toks => handleTs toks
   | "resolve" :: toks => handleResolve toks
+  | "env" :: toks => handleEnv toks
   | _ => "bad-op"
 
 end Driver.Timers
